@@ -256,7 +256,14 @@ def boundary_widths(b):
 
 
 def _alphabet(b, bank):
-    return c05.history_alphabet(b, ("freq", "freq_half", "trunc"), lambda i: c05.HISTORY_WIDTHS)
+    # the small widths share bin counts between (width, half) pairs; at those widths wide filters
+    # take the whole-period fallback of get_truncated_response, so one larger width per filter is
+    # added for the truncated call (the genuinely truncated code path), incl. the SAME call twice
+    out = c05.history_alphabet(b, ("freq", "freq_half", "trunc"), lambda i: c05.HISTORY_WIDTHS)
+    big = 300 if b["name"] == "gabor" else 1024
+    for i in sorted({0, b["num_filts"] - 1}):
+        out.append(["trunc", i, big])
+    return out
 
 
 def lattice(tier):
@@ -310,7 +317,12 @@ def subchecks(tier, seed):
                   high="None, floor(rate/2), rate/2, rate/2 + 0.5, rate/2 + 1", width=bws, flags="analytic"),
         replay=_replay, chunk=4))
     hist_banks = c05.history_banks(tier)
-    hist_alpha = 3 * 2 * len(c05.HISTORY_WIDTHS)
+    # banks with many narrow filters: only there does get_truncated_response take its genuinely
+    # truncated path (wide filters fall back to the whole period), so histories must include them
+    for b in list(hist_banks):
+        if b["name"] in ("gammatone", "gabor") and b["num_filts"] == 3 and b["sampling_rate"] == 16000:
+            hist_banks.append(dict(b, num_filts=24))
+    hist_alpha = 3 * 2 * len(c05.HISTORY_WIDTHS) + 2
     depth = 3 if tier == "thorough" else 2
     subs.append(core.SubCheck(
         "history", c05.history_points(tier, hist_banks, hist_alpha), lambda pt: c05.history_point(pt, _alphabet),
